@@ -2,12 +2,19 @@
 """Dev aid for sensitivity runs: tools_mut.py <repo-file> <old> <new> <ID> [<ID>...]
 Applies a textual mutation to /repo (working tree only), runs the quick checks, restores."""
 import subprocess, sys, os
-f, old, new, ids = sys.argv[1], sys.argv[2], sys.argv[3], sys.argv[4:]
-p = os.path.join('/repo', f)
-s = open(p).read()
-if old not in s:
-    print("MUTATION TARGET NOT FOUND"); sys.exit(3)
-open(p, 'w').write(s.replace(old, new, 1))
+if sys.argv[1] == "--patch":
+    patch, ids = sys.argv[2], sys.argv[3:]
+    r = subprocess.run(["git", "-C", "/repo", "apply", patch], capture_output=True, text=True)
+    if r.returncode != 0:
+        print("PATCH DOES NOT APPLY", r.stderr); sys.exit(3)
+    p = None
+else:
+    f, old, new, ids = sys.argv[1], sys.argv[2], sys.argv[3], sys.argv[4:]
+    p = os.path.join('/repo', f)
+    s = open(p).read()
+    if old not in s:
+        print("MUTATION TARGET NOT FOUND"); sys.exit(3)
+    open(p, 'w').write(s.replace(old, new, 1))
 try:
     b = subprocess.run("cd /repo && go build ./... ", shell=True, capture_output=True, text=True)
     if b.returncode != 0:
@@ -22,5 +29,8 @@ try:
         for l in lines[:4]:
             print("   ", l[:300])
 finally:
-    open(p, 'w').write(s)
+    if p is None:
+        subprocess.run("git -C /repo checkout -- . && git -C /repo clean -fdq", shell=True)
+    else:
+        open(p, 'w').write(s)
     subprocess.run("rm -rf /verif/replays", shell=True)
